@@ -13,8 +13,8 @@ from .sparql_replay import abst, conc, guarded, _Timeout
 warnings.simplefilter("ignore")
 
 
-def build(triples, order_seed=None, relabel=None):
-    g = Graph()
+def build(triples, order_seed=None, relabel=None, ident=None):
+    g = Graph() if ident is None else Graph(identifier=URIRef(ident))
     ts = list(triples)
     if order_seed is not None:
         random.Random(order_seed).shuffle(ts)
@@ -46,7 +46,8 @@ def replay(cfg, events):
         try:
             def run():
                 if op == "iso":
-                    g, h = build(e["g"], e.get("og")), build(e["h"], e.get("oh"), e.get("relabel"))
+                    # "ident": both graphs carry the same identifier (two versions of one named graph, the default graphs of two datasets)
+                    g, h = build(e["g"], e.get("og"), ident=e.get("ident")), build(e["h"], e.get("oh"), e.get("relabel"), ident=e.get("ident"))
                     e["r"] = bool(isomorphic(g, h))
                     e["r_eq"] = bool(to_isomorphic(g) == to_isomorphic(h))
                     e["h"] = dump(h)
@@ -61,7 +62,39 @@ def replay(cfg, events):
                     e["both"], e["first"], e["second"] = dump(both), dump(first), dump(second)
                 elif op == "skolem":
                     g = build(e["g"], e.get("og"))
-                    e["g2"] = dump(g.skolemize().de_skolemize())
+                    kw = {"authority": e["authority"]} if e.get("authority") else {}
+                    sk = g.skolemize(**kw)
+                    e["g2"] = dump(sk.de_skolemize())
+                    e["sk_bnodes"] = sum(1 for t in sk for x in t if isinstance(x, BNode))
+                elif op == "eq_history":
+                    # one IsomorphicGraph compared again and again while it changes by every route there is
+                    ig = to_isomorphic(build(e["g"], e.get("og")))
+                    h = to_isomorphic(build(e["h"], e.get("oh"), e.get("relabel")))
+                    steps = []
+                    for st in e["steps"]:
+                        t = tuple(conc(x) for x in st["t"])
+                        how = st["how"]
+                        if how == "none":
+                            pass
+                        elif how == "add":
+                            ig.add(t)
+                        elif how == "remove":
+                            ig.remove(t)
+                        elif how == "parse":
+                            ig.parse(data="%s %s %s .\n" % tuple(x.n3() for x in t), format="nt")
+                        elif how == "update":
+                            ig.update("INSERT DATA { %s %s %s }" % tuple(x.n3() for x in t))
+                        elif how == "update_delete":
+                            ig.update("DELETE DATA { %s %s %s }" % tuple(x.n3() for x in t))
+                        elif how == "view_add":
+                            Graph(store=ig.store, identifier=ig.identifier).add(t)
+                        elif how == "view_remove":
+                            Graph(store=ig.store, identifier=ig.identifier).remove(t)
+                        elif how == "iadd":
+                            ig += [t]
+                        steps.append({"how": how, "now": dump(ig), "eq": bool(ig == h), "eq_rev": bool(h == ig), "ne": bool(ig != h)})
+                    e["steps"] = steps
+                    e["h"] = dump(h)
                 elif op == "classes":
                     gs = [build(x, i) for i, x in enumerate(e["graphs"])]
                     e["digests"] = [str(to_isomorphic(x).graph_digest()) for x in gs]
